@@ -40,6 +40,15 @@ type Scenario struct {
 	Triggers   []Trigger   `json:"triggers"` // Triggers[i] moves from epoch StartEpoch+i to the next
 	Faults     Faults      `json:"faults"`
 	NoChurn    bool        `json:"no_subscriber_churn,omitempty"`
+	// ViaFeeder: the synchroniser gets sync.NewFeederGatewayDataSource(bc, scripted StarknetData)
+	// instead of the scripted DataSource (covers sync/data_source.go incl. class fetching)
+	ViaFeeder bool `json:"via_feeder_data_source,omitempty"`
+	// Shutdowns: request counts at which Run's context is cancelled (wherever the pipeline is); once
+	// Run has returned a new Blockchain + Synchronizer are started on the same database
+	Shutdowns []uint64 `json:"shutdowns,omitempty"`
+	Plugin    bool     `json:"recording_plugin,omitempty"`     // WithPlugin: a recording, sometimes failing plugin
+	Poll      bool     `json:"preconfirmed_polling,omitempty"` // pre-confirmed polling on (its requests fail)
+	ReadOnly  bool     `json:"read_only,omitempty"`            // readOnlyBlockchain: the chain must not change
 }
 
 type outcome struct {
@@ -52,6 +61,8 @@ type outcome struct {
 	hang       string
 	panicMsg   string
 	drainLost  bool
+	plugin     []pluginCall
+	restarts   int
 	extra      []*fsub
 	skipped    bool
 	wall       time.Duration
@@ -221,129 +232,186 @@ func runScenario(sc Scenario) (out *outcome) {
 		}
 	}
 
-	lis := &syncListener{rec: rec}
-	s := junosync.New(bc, src, log.NewNopZapLogger(), 0, false, wdb).WithListener(lis)
-	if !sc.NoChurn {
-		lis.churn = &churner{r: lib.NewRNG(sc.Seed ^ 0xFEED), s: s, rec: rec, hits: map[string]int{}}
-	}
-	nh := s.SubscribeNewHeads()
-	rg := s.SubscribeReorg()
-	readersDone := make(chan struct{}, 2)
-	go func() {
-		for b := range nh.Recv() {
-			rec.mu.Lock()
-			rec.log = append(rec.log, entry{Kind: eNewHead, Num: b.Number, Hash: *b.Hash, Window: rec.drains})
-			rec.recvNewHead++
-			rec.cond.Broadcast()
-			rec.mu.Unlock()
-		}
-		readersDone <- struct{}{}
-	}()
-	go func() {
-		for g := range rg.Recv() {
-			rec.mu.Lock()
-			rec.log = append(rec.log, entry{Kind: eReorg, Num: g.StartBlockNum, Hash: *g.StartBlockHash,
-				ENum: g.EndBlockNum, EHash: *g.EndBlockHash, Window: rec.drains})
-			rec.recvReorg++
-			rec.cond.Broadcast()
-			rec.mu.Unlock()
-		}
-		readersDone <- struct{}{}
-	}()
-
-	ctx, cancel := context.WithCancel(context.Background())
-	runDone := make(chan string, 1)
-	go func() {
-		err, panicked, stack := lib.Try(func() error { return s.Run(ctx) })
-		if panicked {
-			runDone <- fmt.Sprintf("%v\n%s", err, stack)
-			return
-		}
-		runDone <- ""
-	}()
-
 	final := chains[len(chains)-1]
 	startHeartbeat()
-	deadline := beats.Load() + 4000 // 40 s of a healthy process
-	tick := time.NewTicker(200 * time.Microsecond)
-	lastCommit := -1
-loop:
-	for {
-		select {
-		case msg := <-runDone:
-			out.panicMsg = "Run returned before cancellation: " + msg
-			runDone <- msg
-			break loop
-		case <-tick.C:
+	churnHits := map[string]int{}
+	shutdowns := append([]uint64{}, sc.Shutdowns...)
+	jit := lib.NewRNG(sc.Seed ^ 0x5707)
+	for inst := 0; ; inst++ {
+		lis := &syncListener{rec: rec}
+		var ds junosync.DataSource = src
+		if sc.ViaFeeder {
+			ds = junosync.NewFeederGatewayDataSource(bc, newSNAdapter(src))
 		}
-		rec.mu.Lock()
-		lc := rec.lastCommitSeq
-		n := len(rec.chain)
-		atTip := n == len(final) && (n == 0 || rec.chain[n-1].hash.Equal(final[n-1].Block.Hash))
-		rec.mu.Unlock()
-		if lc != lastCommit {
-			lastCommit = lc
-			src.honestLatest.Store(0)
+		var poll time.Duration
+		if sc.Poll {
+			poll = 300 * time.Microsecond
 		}
-		// at the tip AND the fetcher for the next height has been asking in vain for a while: whatever
-		// was still queued in the pipeline when the tip was reached has been dealt with
-		if src.stable() && atTip && src.honestLatest.Load() >= convergedAfter {
-			out.converged = true
-			break
+		s := junosync.New(bc, ds, log.NewNopZapLogger(), poll, sc.ReadOnly, wdb).WithListener(lis)
+		if sc.Plugin {
+			s = s.WithPlugin(&recPlugin{rec: rec})
 		}
-		if src.stable() && src.honestLatest.Load() >= quiescentAfter {
-			out.quiescent = true
-			break
+		if !sc.NoChurn {
+			lis.churn = &churner{r: lib.NewRNG(sc.Seed ^ 0xFEED ^ uint64(inst)), s: s, rec: rec, hits: churnHits}
 		}
-		if beats.Load() > deadline {
-			out.hang = "no convergence and no quiescence within 40 s"
-			break
-		}
-	}
-	tick.Stop()
-	cancel()
-	select {
-	case msg := <-runDone:
-		if msg != "" && out.panicMsg == "" {
-			out.panicMsg = msg
-		}
-	case <-time.After(30 * time.Second):
-		if out.hang == "" {
-			out.hang = "Run did not return within 30 s of cancellation"
-		}
-	}
-	// last sends: wait for the readers to have everything
-	rec.mu.Lock()
-	wantN, wantG := rec.stores, rec.reorgsOwed
-	rec.mu.Unlock()
-	if !rec.drain(wantN, wantG, 300) {
-		out.drainLost = true
-	}
-	rec.mu.Lock()
-	rec.drains++
-	rec.mu.Unlock()
-	// give a duplicate / spurious send a moment to show up, then stop the readers
-	time.Sleep(2 * time.Millisecond)
-	nh.Unsubscribe()
-	rg.Unsubscribe()
-	<-readersDone
-	<-readersDone
-	if lis.churn != nil {
-		rec.mu.Lock()
-		extras := append([]*fsub{}, rec.extra...)
-		rec.mu.Unlock()
-		for _, x := range extras {
-			x.unsub() // a second call for those that left earlier
+		nh := s.SubscribeNewHeads()
+		rg := s.SubscribeReorg()
+		readersDone := make(chan struct{}, 2)
+		go func() {
+			for b := range nh.Recv() {
+				rec.mu.Lock()
+				rec.log = append(rec.log, entry{Kind: eNewHead, Num: b.Number, Hash: *b.Hash, Window: rec.drains})
+				rec.recvNewHead++
+				rec.cond.Broadcast()
+				rec.mu.Unlock()
+			}
+			readersDone <- struct{}{}
+		}()
+		go func() {
+			for g := range rg.Recv() {
+				rec.mu.Lock()
+				rec.log = append(rec.log, entry{Kind: eReorg, Num: g.StartBlockNum, Hash: *g.StartBlockHash,
+					ENum: g.EndBlockNum, EHash: *g.EndBlockHash, Window: rec.drains})
+				rec.recvReorg++
+				rec.cond.Broadcast()
+				rec.mu.Unlock()
+			}
+			readersDone <- struct{}{}
+		}()
+
+		ctx, cancel := context.WithCancel(context.Background())
+		runDone := make(chan string, 1)
+		go func() {
+			err, panicked, stack := lib.Try(func() error { return s.Run(ctx) })
+			if panicked {
+				runDone <- fmt.Sprintf("%v\n%s", err, stack)
+				return
+			}
+			runDone <- ""
+		}()
+
+		deadline := beats.Load() + 4000 // 40 s of a healthy process
+		tick := time.NewTicker(200 * time.Microsecond)
+		lastCommit := -1
+		shutdown := false
+	loop:
+		for {
 			select {
-			case <-x.done:
-			case <-time.After(5 * time.Second):
-				out.hang = "reader of " + x.name + " did not see its channel closed after Unsubscribe"
+			case msg := <-runDone:
+				out.panicMsg = "Run returned before cancellation: " + msg
+				runDone <- msg
+				break loop
+			case <-tick.C:
+			}
+			rec.mu.Lock()
+			lc := rec.lastCommitSeq
+			n := len(rec.chain)
+			atTip := n == len(final) && (n == 0 || rec.chain[n-1].hash.Equal(final[n-1].Block.Hash))
+			rec.mu.Unlock()
+			if lc != lastCommit {
+				lastCommit = lc
+				src.honestLatest.Store(0)
+			}
+			if sc.ReadOnly && src.requests() >= 1 {
+				// a read-only synchroniser only polls the latest header (once a minute)
+				time.Sleep(20 * time.Millisecond)
+				out.quiescent = true
+				break
+			}
+			if len(shutdowns) > 0 && src.requests() >= shutdowns[0] {
+				// shut the synchroniser down wherever it happens to be, a moment later
+				shutdowns = shutdowns[1:]
+				time.Sleep(time.Duration(jit.Intn(300)) * time.Microsecond)
+				shutdown = true
+				break
+			}
+			// at the tip AND the fetcher for the next height has been asking in vain for a while: whatever
+			// was still queued in the pipeline when the tip was reached has been dealt with
+			if src.stable() && atTip && src.honestLatest.Load() >= convergedAfter {
+				out.converged = true
+				break
+			}
+			if src.stable() && src.honestLatest.Load() >= quiescentAfter {
+				out.quiescent = true
+				break
+			}
+			if beats.Load() > deadline {
+				out.hang = "no convergence and no quiescence within 40 s"
+				break
 			}
 		}
-		out.extra = extras
-		for k, v := range lis.churn.hits {
-			out.persisted[k] += v
+		tick.Stop()
+		cancel()
+		waitUntil := beats.Load() + 3000
+	waitRun:
+		for {
+			select {
+			case msg := <-runDone:
+				if msg != "" && out.panicMsg == "" {
+					out.panicMsg = msg
+				}
+				break waitRun
+			case <-time.After(10 * time.Millisecond):
+				if beats.Load() > waitUntil {
+					if out.hang == "" {
+						out.hang = "Run did not return within 30 s of cancellation"
+					}
+					break waitRun
+				}
+			}
 		}
+		// Run has returned: every send of this instance has been made; the readers must get them all
+		rec.mu.Lock()
+		wantN, wantG := rec.stores, rec.reorgsOwed
+		rec.mu.Unlock()
+		if !rec.drain(wantN, wantG, 300) {
+			out.drainLost = true
+		}
+		// give a duplicate / spurious send a moment to show up, then stop the readers
+		time.Sleep(2 * time.Millisecond)
+		nh.Unsubscribe()
+		rg.Unsubscribe()
+		<-readersDone
+		<-readersDone
+		if lis.churn != nil {
+			rec.mu.Lock()
+			extras := append([]*fsub{}, rec.extra...)
+			rec.mu.Unlock()
+			for _, x := range extras {
+				if x.closedSeen {
+					continue
+				}
+				x.unsub() // a second call for those that left earlier
+				select {
+				case <-x.done:
+					x.closedSeen = true
+				case <-time.After(5 * time.Second):
+					out.hang = "reader of " + x.name + " did not see its channel closed after Unsubscribe"
+				}
+				rec.mu.Lock()
+				if x.live {
+					x.live = false
+					x.toStore, x.toReorg = rec.stores, rec.reorgsOwed
+				}
+				rec.mu.Unlock()
+			}
+			out.extra = extras
+		}
+		if !shutdown || out.hang != "" || out.panicMsg != "" {
+			break
+		}
+		// a new process: new Blockchain on the same database, new Synchronizer; reverts that were not
+		// announced yet are forgotten (currReorg is not persisted)
+		rec.mu.Lock()
+		rec.log = append(rec.log, entry{Kind: eRestart})
+		rec.pendingRevert = 0
+		rec.mu.Unlock()
+		bc = lib.NodeOn(wdb, net, sc.DstNew)
+		out.final = bc
+		out.restarts++
+	}
+	for k, v := range churnHits {
+		out.persisted[k] += v
 	}
 
 	src.mu.Lock()
@@ -379,6 +447,7 @@ loop:
 	rec.mu.Lock()
 	out.log = append([]entry{}, rec.log...)
 	out.finalChain = append([]headRec{}, rec.chain...)
+	out.plugin = append([]pluginCall{}, rec.plugin...)
 	rec.mu.Unlock()
 	return out
 }
